@@ -130,6 +130,14 @@ theorem C10_run_fill (cfg : Cfg) (s : St) (i : Nat) (rs : List Round) (it : List
       exact Or.inr ⟨(firstLow_none cfg s).mp (by simp [hj]), by simpa using hcs⟩
   · exact absurd h (by simp)
 
+/-- C05 / C01 across resumes: a history in which new sampler objects are resumed from the checkpoint between `run()` calls —
+    each resume restoring the bookkeeping state exactly — is a history of `run()` calls; in particular C01 holds at every
+    boundary of every segment -/
+theorem C01_run_session (env : Env) (nBatch : Nat) (segs : List (List Ev))
+    (h : acceptsSession env (init nBatch) segs = true) (hw : WF env (init nBatch) (opsOf segs.flatten)) :
+    Inv01 env (execEv env (init nBatch) segs.flatten) :=
+  C01_run env nBatch segs.flatten .idle (session_flatten env segs (init nBatch) h) hw
+
 /-! ### non-vacuity: the demo history of C01 as two `run()` calls, the second one ending exploration -/
 namespace RunDemo
 def cfg1 : Cfg := { nShell := 1, discard := false, nLive := 1, nLikeMax := some 6 }
